@@ -704,3 +704,10 @@ def ctx_value(it, st, args):
 I.synth[('$ctx', 'Done')] = ctx_done
 I.synth[('$ctx', 'Err')] = ctx_err
 I.synth[('$ctx', 'Value')] = ctx_value
+
+
+@I.reg('time.After')
+def time_after(it, st, args, fname):
+    """no passing of time inside an explored step: the timer channel never becomes ready"""
+    it.ctx.assumptions.add('time.After never fires within an explored step (no passing of time)')
+    return ret(st, Ptr(it.new_obj(st, ('CH', 1, (), False), ('CH', 'time.Time'))))
